@@ -59,6 +59,65 @@ theorem no_handler_on_invalid {α : Type} (dec : List Nat → Option α) (fixed 
     (frame : List Nat) (h : checkFrame fixed frame = none) : (checkFrame fixed frame).bind dec = none := by
   rw [h]; rfl
 
+/-! ### the position of the root (D35) -/
+
+/-- Whatever the plain check refuses, the check with the alignment guard refuses too: every theorem
+of this file that ends in `checkFrame .. = none` holds for `checkFrameA`. -/
+theorem checkA_none_of_check_none (fixed align : Nat) (frame : List Nat) (h : checkFrame fixed frame = none) :
+    checkFrameA fixed align frame = none := by
+  unfold checkFrameA; rw [h]
+
+/-- What the guard adds: a frame with a matching checksum whose root would sit at a position that is
+not aligned for it is refused (the pinned check accepted it and formed the reference). -/
+theorem misplaced_root_rejected (fixed align : Nat) (b : List Nat) (hpos : (b.length - fixed) % align ≠ 0) :
+    checkFrameA fixed align (mkFrame b) = none := by
+  unfold checkFrameA
+  cases h : checkFrame fixed (mkFrame b) with
+  | none => rfl
+  | some body =>
+    have hb : body = b := by
+      unfold mkFrame at h
+      rw [check_append fixed b _ (by simp [le32]), fromLe32_le32 _ (crc32_lt b)] at h
+      simp only [ne_eq, not_true_eq_false, if_false] at h
+      split at h
+      · cases h
+      · injection h with h; exact h.symm
+    simp only [hb]
+    rw [if_neg hpos]
+
+/-- **frame_roundtrip** with the guard: what `to_view_bytes` produced - the serializer aligns the
+root, `hpos` - is accepted and yields exactly the body. -/
+theorem frame_roundtripA (fixed align : Nat) (b : List Nat) (h : fixed ≤ b.length)
+    (hpos : (b.length - fixed) % align = 0) : checkFrameA fixed align (mkFrame b) = some b := by
+  unfold checkFrameA
+  rw [frame_roundtrip fixed b h]
+  simp only
+  rw [if_pos hpos]
+
+/-- The guard never lets through what the plain check refused, and yields the same body. -/
+theorem checkA_some (fixed align : Nat) (frame body : List Nat) (h : checkFrameA fixed align frame = some body) :
+    checkFrame fixed frame = some body ∧ (body.length - fixed) % align = 0 := by
+  unfold checkFrameA at h
+  cases hc : checkFrame fixed frame with
+  | none => rw [hc] at h; cases h
+  | some b' =>
+    rw [hc] at h
+    simp only at h
+    split at h
+    · rename_i hp; injection h with h; subst h; exact ⟨rfl, hp⟩
+    · cases h
+
+theorem short_frame_rejectedA (fixed align : Nat) (frame : List Nat) (h : frame.length < fixed + 4) :
+    checkFrameA fixed align frame = none :=
+  checkA_none_of_check_none fixed align frame (short_frame_rejected fixed frame h)
+
+/-- The witness of D35: an 8-byte root with one stray byte in front of it, checksum recomputed. -/
+theorem legacy_misplaced_root :
+    (checkFrame 8 (mkFrame [9, 1, 2, 3, 4, 5, 6, 7, 8])).isSome = true ∧
+    checkFrameA 8 8 (mkFrame [9, 1, 2, 3, 4, 5, 6, 7, 8]) = none := by
+  refine ⟨?_, misplaced_root_rejected 8 8 _ (by decide)⟩
+  rw [frame_roundtrip 8 _ (by decide)]; rfl
+
 /-! ### single-bit corruption -/
 
 theorem byteBits_flip (x i : Nat) (hi : i < 8) :
@@ -173,6 +232,11 @@ theorem single_bit_flip_rejected (fixed : Nat) (b : List Nat) (j i : Nat)
     · have := hne (c / 16777216 % 256); have := hlt _ hb3; omega
 
 /-! ### Witnesses -/
+
+theorem single_bit_flip_rejectedA (fixed align : Nat) (b : List Nat) (j i : Nat)
+    (hj : j < (mkFrame b).length) (hi : i < 8) :
+    checkFrameA fixed align (flipBit (mkFrame b) j i) = none :=
+  checkA_none_of_check_none fixed align _ (single_bit_flip_rejected fixed b j i hj hi)
 
 /-- Defect D3 of the pinned tree: the four-byte frame `[0,0,0,0]` carries the correct CRC of the
 empty body (`crc32 [] = 0`), so the pinned check accepts it for *every* message type and hands an
